@@ -70,9 +70,9 @@ def render_forwarding(o, i, fl, placement):
     """-> (source, how to obtain the callables).  placements:
     function | emulate | method | method_emulate | super | apply_super | auto (no declaration: discovery)"""
     L = ['import functools', 'from sigtools import specifiers', '']
-    if placement in ('function', 'emulate', 'auto'):
+    if placement in ('function', 'emulate', 'auto', 'auto_global'):
         L += ['def inner(%s):' % absig.render_params(i), '    return locals()', '']
-        if placement != 'auto':
+        if placement not in ('auto', 'auto_global'):
             L.append('@specifiers.forwards_to_function(inner, %s)' % deco_args(fl, placement == 'emulate'))
         ct = call_text('inner', o, fl)
         L += ['def w(%s):' % absig.render_params(o), '    return ' + ct, '']
@@ -94,6 +94,34 @@ def render_forwarding(o, i, fl, placement):
         else:
             L += ['class K(Base):', '    @specifiers.forwards_to_super(%s)' % deco_args(fl),
                   '    def w(%s):' % absig.render_params(with_self(o)), '        return ' + ct, '']
+    elif placement == 'auto_closure':
+        L += ['def make():', '    def inner(%s):' % absig.render_params(i), '        return locals()',
+              '    def w(%s):' % absig.render_params(o), '        return ' + call_text('inner', o, fl), '    return w, inner',
+              'w, inner = make()', '']
+    elif placement in ('auto_attr', 'auto_attr2'):
+        chain = 'ns.inner' if placement == 'auto_attr' else 'ns.sub.inner'
+        L += ['import types', 'def inner(%s):' % absig.render_params(i), '    return locals()',
+              'ns = types.SimpleNamespace(inner=inner, sub=types.SimpleNamespace(inner=inner))',
+              'def w(%s):' % absig.render_params(o), '    return ' + call_text(chain, o, fl), '']
+    elif placement == 'auto_method':
+        L += ['class K(object):',
+              '    def inner(%s):' % absig.render_params(with_self(i)), '        return locals()',
+              '    def w(%s):' % absig.render_params(with_self(o)), '        return ' + call_text('self.inner', o, fl), '']
+    elif placement == 'auto_param':
+        # the callee is a parameter of the wrapper; discovery resolves it through a functools.partial binding it
+        hp = [{'n': 'h', 'k': 'po' if o and o[0]['k'] == 'po' else 'pok', 'd': False, 'dv': 0, 'an': 0}]
+        L += ['def inner(%s):' % absig.render_params(i), '    return locals()',
+              'def w0(%s):' % absig.render_params(hp + list(o)), '    return ' + call_text('h', o, fl),
+              'w = functools.partial(w0, inner)', '']
+    elif placement in ('auto_wraps', 'auto_deco_noop'):
+        # decorators that only wrap: the discovered signature must not change
+        L += ['def inner(%s):' % absig.render_params(i), '    return locals()',
+              'def noop(f):', '    return f',
+              'def w_orig(%s):' % absig.render_params(o), '    return ' + call_text('inner', o, fl)]
+        if placement == 'auto_wraps':
+            L += ['@functools.wraps(w_orig)', 'def w(*a, **k):', '    return w_orig(*a, **k)', '']
+        else:
+            L += ['w = noop(noop(w_orig))', '']
     else:
         raise ValueError(placement)
     return '\n'.join(L)
